@@ -18,8 +18,9 @@ class Walk:
 
     def resolve(self, v):
         """follow phi aliases on this path"""
-        while v['k'] == 'i' and v['id'] in self.alias:
-            v = self.alias[v['id']]
+        n = 0
+        while v['k'] == 'i' and v['id'] in self.alias and n < 64:
+            v = self.alias[v['id']]; n += 1
         return v
 
     def val(self, v):
@@ -160,9 +161,13 @@ class Walk:
         """does valref v resolve (through bitcast / GEP / path phis) to instruction root_id? returns offset or None"""
         off = 0
         v = self.resolve(v)
+        seen = set()
         while v['k'] == 'i':
             if v['id'] == root_id:
                 return off
+            if v['id'] in seen:
+                return None          # a pointer walked around a loop: not a fixed offset from the root
+            seen.add(v['id'])
             i = self.f.insts[v['id']]
             if i.op == 'bitcast':
                 v = self.resolve(i.ops[0])
@@ -180,11 +185,15 @@ class Walk:
         """if v resolves through casts/GEPs to a function argument: (argno, offset)"""
         off = 0
         v = self.resolve(v)
+        seen = set()
         while True:
             if v['k'] == 'a':
                 return v['n'], off
             if v['k'] != 'i':
                 return None
+            if v['id'] in seen:
+                return None
+            seen.add(v['id'])
             i = self.f.insts[v['id']]
             if i.op == 'bitcast':
                 v = self.resolve(i.ops[0])
